@@ -400,10 +400,15 @@ fn run_case(idx: usize, line: &str, dir: &str, out: &mut Out) {
     }
     let core = move || {
         trace::start(&faults, true);
-        let res = match std::panic::catch_unwind(std::panic::AssertUnwindSafe(|| Popen::create(&argv, cfg))) {
+        let res = match std::panic::catch_unwind(std::panic::AssertUnwindSafe(|| {
+            let r = Popen::create(&argv, cfg);
+            trace::escape_guard();
+            r
+        })) {
             Ok(r) => r,
             Err(_) => Err(PopenError::LogicError("PANIC in Popen::create")),
         };
+        trace::escape_guard(); // also a copy that panicked its way out of the call
         let res_line = match &res {
             Ok(p) => {
                 let f = |o: &Option<File>| o.as_ref().map_or("0".to_string(), |f| format!("{}/{}", f.as_raw_fd(), ident(f.as_raw_fd())));
@@ -432,6 +437,7 @@ fn run_case(idx: usize, line: &str, dir: &str, out: &mut Out) {
             let faults = parse_faults(spec.get("faults"));
             trace::start(&faults, true);
             let res = Popen::create(&argv, cfg);
+            trace::escape_guard();
             let res_line = match &res {
                 Ok(p) => {
                     let f = |o: &Option<File>| o.as_ref().map_or("0".to_string(), |f| format!("{}/{}", f.as_raw_fd(), ident(f.as_raw_fd())));
